@@ -2,6 +2,16 @@
 import json,sys
 pid=sys.argv[1]
 n=int(sys.argv[2]) if len(sys.argv)>2 else 2
+letters=sys.argv[3] if len(sys.argv)>3 else 'abcdefgh'[:n]     # names of the changes, e.g. 'cd' for a later round
+import glob,os
+avoid=[]
+for d in sorted(glob.glob('/verif/seeded/%s?'%pid)):
+    if os.path.basename(d)[-1] in letters: continue
+    try:
+        first=[l for l in open(d+'/notes.md') if l.strip()][0].strip().lstrip('# ').strip()
+        avoid.append(first)
+    except Exception: pass
+names=[pid+c for c in letters]
 p=[json.loads(l) for l in open('/verif/properties.jsonl') if json.loads(l)['id']==pid][0]
 print(f"""You are helping to evaluate a verification effort for the header-only C++17 library GMLC-TDC/concurrency (thread-synchronization wrappers). Your job is to act as a "bug seeder": produce {n} DIFFERENT, realistic source changes to the library, each of which breaks the semantic property quoted below, while the library still compiles and its existing test suite still passes.
 
@@ -13,11 +23,11 @@ Quantified: {p['quantifier']['text']}
 Main files: {', '.join(p['anchors']['files'])}
 
 WHAT TO PRODUCE
-For each of the {n} changes (call them {pid}a, {pid}b, ...):
+For each of the {n} changes (call them {', '.join(names)}):
  1. A change to the library headers under gmlc/ (not to tests) that a plausible, well-meaning refactoring / optimisation / cleanup could introduce, and that violates the property. It must NOT be exposed by ordinary use at once: it should need something specific to manifest - a particular interleaving of threads, a multi-step sequence of operations, an unusual input or configuration (e.g. a particular mutex type, an element type with a destructor, a spurious wake-up, a time-out, an exception thrown by user code), or two cooperating sites that each look fine alone. Prefer subtle changes (reordering two statements, weakening a condition, moving work outside a lock, using the wrong counter, if-instead-of-while, ...) over gross ones (deleting a whole function body). The different changes should break the property through different mechanisms / different code sites.
  2. The library must still compile and ALL 39 existing tests must still pass with the change (run the suite at least 3 times; flaky hangs or failures mean the change is rejected - pick another).
  3. A demonstration: a small self-contained C++ program demo.cpp (compiled with `g++ -std=c++17 -O1 -g -pthread -I/tmp/seed/{pid} demo.cpp -o demo`, optionally with -fsanitize=address,undefined or -fsanitize=thread when that is how the violation shows) that exits non-zero / reports the violation WITH the change and exits 0 WITHOUT it (verify both, e.g. with `git stash` or `git diff > p.diff; git checkout -- gmlc; ...; git apply p.diff`). If the violation needs a specific interleaving, force it deterministically in the demo (e.g. a user functor / payload type / custom mutex or allocator that blocks on a flag at the right moment, sleeps, or a custom mutex type passed as the template parameter), rather than relying on luck; a demo that fails only sometimes is acceptable only if it fails in the great majority of runs with the change and never without it.
- 4. Save for each change, under /tmp/seed/{pid}/out/{pid}a/ (resp. {pid}b/ ...): patch.diff (output of `git diff -- gmlc` with only that one change applied to the pristine tree), demo.cpp, and notes.md (which clause of the property is broken, what exactly is needed for it to manifest, the commands you ran and what they printed with and without the change, and how many times you ran the test suite).
+ 4. Save for each change, under /tmp/seed/{pid}/out/{names[0]}/ (resp. {', '.join(n_+'/' for n_ in names[1:])}): patch.diff (output of `git diff -- gmlc` with only that one change applied to the pristine tree), demo.cpp, and notes.md (which clause of the property is broken, what exactly is needed for it to manifest, the commands you ran and what they printed with and without the change, and how many times you ran the test suite).
  5. Leave the worktree's gmlc/ directory pristine (`git checkout -- gmlc`) at the end.
 
-Your final message should list, per change: a one-line description, the file and function changed, what is needed to manifest, and whether you verified (a) the suite passes 3x with it, (b) the demo fails with it, (c) the demo passes without it. Be honest: if you could not make one of them work, say so rather than presenting an unverified change.""")
+{('ALREADY KNOWN CHANGES - do NOT reproduce these or close variants of them (same site and same mechanism); find different sites, different clauses of the property, different mechanisms:' + chr(10) + chr(10).join(' - ' + a for a in avoid) + chr(10) + chr(10)) if avoid else ''}Your final message should list, per change: a one-line description, the file and function changed, what is needed to manifest, and whether you verified (a) the suite passes 3x with it, (b) the demo fails with it, (c) the demo passes without it. Be honest: if you could not make one of them work, say so rather than presenting an unverified change.""")
